@@ -286,8 +286,8 @@ def validate_scalar(value: Any, dtype: DataType) -> Any:
 
     vtype = type(value)
 
-    # Exact match
-    if vtype is dtype.kind:
+    # Exact match; an object column holds anything
+    if vtype is dtype.kind or dtype.kind is object:
         return value
 
     # Numeric coercions
